@@ -1,1 +1,4 @@
+pub mod authdata;
 pub mod psl;
+pub mod rpid;
+pub mod util;
